@@ -3,7 +3,9 @@ import CnlSpec.Token
 import CnlProofs.CIntLemmas
 /-!
 Helper lemmas for C15: the width estimate, positional values, Horner accumulation in chunks,
-the int64 chunk arithmetic, used digits and trailing bits.  Lean core only.
+the int64 chunk arithmetic, used digits and trailing bits, and the scanner/grammar link
+(`token_scanned`: `scan_string` returns what the grammar of `CnlSpec.Token` says, by induction over
+the character list).  Lean core only.
 -/
 namespace Cnl.ParseProofs
 open Cnl Cnl.Parse Cnl.Token
@@ -715,5 +717,1043 @@ theorem parseString_builtin {base stride : Nat} (hs : StrideOK base stride) {t :
   have hc : i64.InRange (sg neg (foldFrom base 0 ds1)) := inRange_sg neg _ (foldFrom_lt_pow hs ds1 hd1 (by omega))
   rw [IntTy.wrap_id hb (inRange_of_i64 ht hc)]
   exact parseChunks_builtin hs ht neg (n / stride) mid (foldFrom base 0 ds1) ds2 rest h2 hd2 hfit
+
+
+theorem digitValue_range {base : Nat} {c : Char} {d : Nat} (h : digitValue base c = some d) :
+    d < base ∧ ((48 ≤ c.toNat ∧ c.toNat ≤ 57 ∧ d = c.toNat - 48) ∨ (97 ≤ c.toNat ∧ c.toNat ≤ 102 ∧ d = c.toNat - 87) ∨
+      (65 ≤ c.toNat ∧ c.toNat ≤ 70 ∧ d = c.toNat - 55)) := by
+  unfold digitValue at h
+  generalize c.toNat = n at h ⊢
+  by_cases h1 : 48 ≤ n ∧ n ≤ 57
+  · simp only [h1, and_self, ite_true] at h
+    by_cases hb : n - 48 < base
+    · simp only [hb, ite_true, Option.some.injEq] at h; subst h; exact ⟨hb, Or.inl ⟨h1.1, h1.2, rfl⟩⟩
+    · simp [hb] at h
+  · simp only [h1, ite_false] at h
+    by_cases h2 : 97 ≤ n ∧ n ≤ 102
+    · simp only [h2, and_self, ite_true] at h
+      by_cases hb : n - 87 < base
+      · simp only [hb, ite_true, Option.some.injEq] at h; subst h; exact ⟨hb, Or.inr (Or.inl ⟨h2.1, h2.2, rfl⟩)⟩
+      · simp [hb] at h
+    · simp only [h2, ite_false] at h
+      by_cases h3 : 65 ≤ n ∧ n ≤ 70
+      · simp only [h3, and_self, ite_true] at h
+        by_cases hb : n - 55 < base
+        · simp only [hb, ite_true, Option.some.injEq] at h; subst h; exact ⟨hb, Or.inr (Or.inr ⟨h3.1, h3.2, rfl⟩)⟩
+        · simp [hb] at h
+      · simp [h3] at h
+
+theorem inRangeC_iff (c lo hi : Char) : inRangeC c lo hi = true ↔ lo.toNat ≤ c.toNat ∧ c.toNat ≤ hi.toNat := by
+  simp [inRangeC]
+
+/-- a digit of the grammar is a digit of the code's table with the same value, and is neither a
+separator nor the radix point -/
+theorem digitValue_digitPos {base : Nat} (hb : base = 2 ∨ base = 8 ∨ base = 10 ∨ base = 16) {c : Char} {d : Nat}
+    (h : digitValue base c = some d) : digitPos base c = some d := by
+  obtain ⟨hlt, hr⟩ := digitValue_range h
+  have e0 : '0'.toNat = 48 := rfl
+  have e1 : '1'.toNat = 49 := rfl
+  have e7 : '7'.toNat = 55 := rfl
+  have e9 : '9'.toNat = 57 := rfl
+  have ea : 'a'.toNat = 97 := rfl
+  have ez : 'z'.toNat = 122 := rfl
+  have eA : 'A'.toNat = 65 := rfl
+  have eZ : 'Z'.toNat = 90 := rfl
+  rcases hb with rfl | rfl | rfl | rfl
+  · have : inRangeC c '0' '1' = true := by rw [inRangeC_iff, e0, e1]; omega
+    simp only [digitPos, this, ite_true]; congr 1; omega
+  · have : inRangeC c '0' '7' = true := by rw [inRangeC_iff, e0, e7]; omega
+    simp only [digitPos, this, ite_true, show (8:Nat) ≠ 2 by decide, ite_false]; congr 1; omega
+  · have : inRangeC c '0' '9' = true := by rw [inRangeC_iff, e0, e9]; omega
+    simp only [digitPos, this, ite_true, show (10:Nat) ≠ 2 by decide, show (10:Nat) ≠ 8 by decide, ite_false]; congr 1; omega
+  · simp only [digitPos, show (16:Nat) ≠ 2 by decide, show (16:Nat) ≠ 8 by decide, show (16:Nat) ≠ 10 by decide, ite_false, ite_true]
+    rcases hr with ⟨a, b, rfl⟩ | ⟨a, b, rfl⟩ | ⟨a, b, rfl⟩
+    · have : inRangeC c '0' '9' = true := by rw [inRangeC_iff, e0, e9]; omega
+      simp only [this, ite_true]
+    · have h1 : ¬ inRangeC c '0' '9' = true := by rw [inRangeC_iff, e0, e9]; omega
+      have h2 : inRangeC c 'a' 'z' = true := by rw [inRangeC_iff, ea, ez]; omega
+      simp [h1, h2]
+    · have h1 : ¬ inRangeC c '0' '9' = true := by rw [inRangeC_iff, e0, e9]; omega
+      have h2 : ¬ inRangeC c 'a' 'z' = true := by rw [inRangeC_iff, ea, ez]; omega
+      have h3 : inRangeC c 'A' 'Z' = true := by rw [inRangeC_iff, eA, eZ]; omega
+      simp [h1, h2, h3]
+
+theorem digitValue_toNat_ge {base : Nat} {c : Char} {d : Nat} (h : digitValue base c = some d) : 48 ≤ c.toNat := by
+  obtain ⟨_, hr⟩ := digitValue_range h
+  omega
+
+theorem digitValue_ne {base : Nat} {c : Char} {d : Nat} (h : digitValue base c = some d) (x : Char) (hx : x.toNat < 48) : c ≠ x := by
+  intro e; subst e; have := digitValue_toNat_ge h; omega
+
+theorem digitValue_not_skip {base : Nat} {c : Char} {d : Nat} (h : digitValue base c = some d) :
+    (c == separator || c == radixChar) = false := by
+  have h1 := digitValue_ne h separator (by decide)
+  have h2 := digitValue_ne h radixChar (by decide)
+  simp [h1, h2]
+
+
+/-! ## the digit-sequence grammar as an inductive relation -/
+
+/-- `digit ('? digit)*`: characters and the digit values they denote -/
+inductive DS (base : Nat) : List Char → List Nat → Prop
+  | one {c d} : digitValue base c = some d → DS base [c] [d]
+  | sep {c d rest ds} : digitValue base c = some d → DS base rest ds → DS base (c :: '\'' :: rest) (d :: ds)
+  | cons {c d rest ds} : digitValue base c = some d → DS base rest ds → DS base (c :: rest) (d :: ds)
+
+theorem digitSeq_DS (base : Nat) (r : List Char) : ∀ ds, digitSeq base r = some ds → DS base r ds := by
+  refine digitSeq.induct_unfolding base (fun r o => ∀ ds, o = some ds → DS base r ds) ?_ ?_ ?_ ?_ ?_ ?_ r
+  · intro ds h; cases h
+  · intro c ds h
+    cases hd : digitValue base c with
+    | none => simp [hd] at h
+    | some d => simp [hd] at h; subst h; exact DS.one hd
+  · intro c rest d ds hr hc ih ds' h
+    injection h with h; subst h
+    exact DS.sep hc (ih ds hr)
+  · intro c rest _ _ ds h; cases h
+  · intro c rest _ _ d ds hr hc ih ds' h
+    injection h with h; subst h
+    exact DS.cons hc (ih ds hr)
+  · intro c rest _ _ _ _ ds h; cases h
+
+theorem DS_head {base : Nat} {r : List Char} {ds : List Nat} (h : DS base r ds) :
+    ∃ c r' d0 ds', r = c :: r' ∧ ds = d0 :: ds' ∧ digitValue base c = some d0 := by
+  cases h with
+  | one hc => exact ⟨_, _, _, _, rfl, rfl, hc⟩
+  | sep hc _ => exact ⟨_, _, _, _, rfl, rfl, hc⟩
+  | cons hc _ => exact ⟨_, _, _, _, rfl, rfl, hc⟩
+
+theorem DS_last {base : Nat} {r : List Char} {ds : List Nat} (h : DS base r ds) :
+    ∃ r' x d, r = r' ++ [x] ∧ digitValue base x = some d := by
+  induction h with
+  | one hc => exact ⟨[], _, _, rfl, hc⟩
+  | sep hc _ ih => obtain ⟨r', x, d, e, hx⟩ := ih; exact ⟨_ :: '\'' :: r', x, d, by rw [e]; rfl, hx⟩
+  | cons hc _ ih => obtain ⟨r', x, d, e, hx⟩ := ih; exact ⟨_ :: r', x, d, by rw [e]; rfl, hx⟩
+
+theorem DS_noRadix {base : Nat} {r : List Char} {ds : List Nat} (h : DS base r ds) : radixChar ∉ r := by
+  induction h with
+  | one hc => have := digitValue_ne hc radixChar (by decide); simp [this.symm]
+  | sep hc _ ih =>
+    have := digitValue_ne hc radixChar (by decide)
+    simp only [List.mem_cons, not_or]
+    exact ⟨this.symm, by decide, ih⟩
+  | cons hc _ ih =>
+    have := digitValue_ne hc radixChar (by decide)
+    simp only [List.mem_cons, not_or]
+    exact ⟨this.symm, ih⟩
+
+theorem DS_length {base : Nat} {r : List Char} {ds : List Nat} (h : DS base r ds) :
+    r.length = ds.length + r.count separator := by
+  induction h with
+  | one hc => have := digitValue_ne hc '\'' (by decide); simp [this, separator]
+  | sep hc _ ih =>
+    have := digitValue_ne hc '\'' (by decide)
+    simp [this, separator] at ih ⊢; omega
+  | cons hc _ ih =>
+    have := digitValue_ne hc '\'' (by decide)
+    simp [this, separator] at ih ⊢; omega
+
+theorem DS_lt {base : Nat} {r : List Char} {ds : List Nat} (h : DS base r ds) : ∀ d ∈ ds, d < base := by
+  induction h with
+  | one hc => intro d hd; simp at hd; subst hd; exact (digitValue_range hc).1
+  | sep hc _ ih =>
+    intro d hd; simp only [List.mem_cons] at hd
+    rcases hd with rfl | hd
+    · exact (digitValue_range hc).1
+    · exact ih d hd
+  | cons hc _ ih =>
+    intro d hd; simp only [List.mem_cons] at hd
+    rcases hd with rfl | hd
+    · exact (digitValue_range hc).1
+    · exact ih d hd
+
+theorem readDigits_digit {base : Nat} (hb : base = 2 ∨ base = 8 ∨ base = 10 ∨ base = 16) {c : Char} {d : Nat}
+    (hc : digitValue base c = some d) (cs : List Char) (n : Nat) :
+    readDigits base (c :: cs) (n + 1) = readDigits base cs n >>= fun r => .ok (d :: r.1, r.2) := by
+  simp only [readDigits, digitValue_not_skip hc, digitValue_digitPos hb hc]
+  rfl
+
+theorem readDigits_sep (base : Nat) (cs : List Char) (n : Nat) :
+    readDigits base ('\'' :: cs) (n + 1) = readDigits base cs (n + 1) := by
+  simp [readDigits, separator]
+
+theorem readDigits_radix (base : Nat) (cs : List Char) (n : Nat) :
+    readDigits base ('.' :: cs) (n + 1) = readDigits base cs (n + 1) := by
+  simp [readDigits, separator, radixChar]
+
+/-- reading as many digits as the sequence has consumes exactly the sequence -/
+theorem DS_read {base : Nat} (hb : base = 2 ∨ base = 8 ∨ base = 10 ∨ base = 16) {r : List Char} {ds : List Nat}
+    (h : DS base r ds) : ∀ tail, readDigits base (r ++ tail) ds.length = .ok (ds, tail) := by
+  induction h with
+  | one hc =>
+    intro tail
+    show readDigits base (_ :: tail) (0 + 1) = _
+    rw [readDigits_digit hb hc, readDigits_zero]; rfl
+  | @sep c d rest ds hc hr ih =>
+    intro tail
+    obtain ⟨_, _, d0, ds', _, e, _⟩ := DS_head hr
+    show readDigits base (c :: '\'' :: (rest ++ tail)) (ds.length + 1) = _
+    rw [readDigits_digit hb hc]
+    have := ih tail
+    rw [e] at this ⊢
+    rw [List.length_cons, readDigits_sep]
+    rw [List.length_cons] at this
+    rw [this]; rfl
+  | @cons c d rest ds hc hr ih =>
+    intro tail
+    show readDigits base (c :: (rest ++ tail)) (ds.length + 1) = _
+    rw [readDigits_digit hb hc, ih tail]; rfl
+
+/-! ## `scan_base`: the three quantities it derives from `[str, str+length)` -/
+
+/-- `scan_base` after `has_radix`, `num_non_separators` and `num_fractional_digits` were computed -/
+def scanCore (cs : List Char) (neg : Bool) (offset : Nat) (hasRadix : Bool) (numNonSep numFrac : Nat) : Res Params :=
+  if (cs.getD offset '\x00' != '0' || hasRadix) || offset + 1 ≥ numNonSep then
+    scanMsb cs neg 10 18 offset (decimalBits numNonSep) numNonSep numFrac
+  else
+    let c1 := cs.getD (offset + 1) '\x00'
+    if c1 == 'B' || c1 == 'b' then
+      scanMsb cs neg 2 63 (offset + 2) (numNonSep - 2) (numNonSep - 2) numFrac
+    else if c1 == 'X' || c1 == 'x' then
+      scanMsb cs neg 16 15 (offset + 2) ((numNonSep - 2) * 4) (numNonSep - 2) numFrac
+    else
+      scanMsb cs neg 8 21 (offset + 1) ((numNonSep - 1) * 3) (numNonSep - 1) numFrac
+
+/-- `has_radix`, `num_non_separators`, `num_fractional_digits` of the searched range `body` -/
+def scanBody (body : List Char) (length : Nat) : Bool × Nat × Nat :=
+  let found := body.idxOf radixChar
+  let hasRadix : Bool := found < body.length
+  let post := body.drop (found + 1)
+  let preSeps := (body.take found).count separator
+  let postSeps := post.count separator
+  (hasRadix, length - (preSeps + postSeps + (if hasRadix then 1 else 0)), post.length - postSeps)
+
+theorem scanBase_eq (cs : List Char) (neg : Bool) (offset length : Nat) :
+    scanBase cs neg offset length = scanCore cs neg offset (scanBody (cs.take length) length).1
+      (scanBody (cs.take length) length).2.1 (scanBody (cs.take length) length).2.2 := rfl
+
+/-- no radix point in the searched range -/
+theorem scanBody_noRadix (body : List Char) (length : Nat) (h : radixChar ∉ body) :
+    scanBody body length = (false, length - body.count separator, 0) := by
+  have hf : body.idxOf radixChar = body.length := List.idxOf_eq_length h
+  have hd : body.drop (body.length + 1) = [] := List.drop_eq_nil_of_le (by omega)
+  unfold scanBody
+  simp [hf, hd]
+
+/-- the searched range is `a . b` with no radix point in `a` -/
+theorem scanBody_radix (length : Nat) (a b : List Char) (ha : radixChar ∉ a) :
+    scanBody (a ++ radixChar :: b) length
+      = (true, length - (a.count separator + b.count separator + 1), b.length - b.count separator) := by
+  have hf : (a ++ radixChar :: b).idxOf radixChar = a.length := by
+    rw [List.idxOf_append, if_neg ha, List.idxOf_cons_self]; omega
+  unfold scanBody
+  simp [hf]
+
+/-! ## the token grammar, case by case -/
+
+theorem splitAtPoint_some (cs : List Char) : ∀ ip fp, splitAtPoint cs = (ip, some fp) →
+    cs = ip ++ radixChar :: fp ∧ radixChar ∉ ip := by
+  refine splitAtPoint.induct_unfolding (fun cs o => ∀ ip fp, o = (ip, some fp) → cs = ip ++ radixChar :: fp ∧ radixChar ∉ ip) ?_ ?_ ?_ cs
+  · intro ip fp h; cases h
+  · intro rest ip fp h
+    injection h with h1 h2; injection h2 with h2
+    subst h1; subst h2; exact ⟨rfl, by simp⟩
+  · intro c rest hne a b hab ih ip fp h
+    injection h with h1 h2
+    subst h1; subst h2
+    obtain ⟨e, hn⟩ := ih a fp hab
+    refine ⟨by rw [e]; rfl, ?_⟩
+    simp only [List.mem_cons, not_or]
+    exact ⟨fun h => hne h.symm, hn⟩
+
+/-- an optional decimal digit sequence (either side of the radix point may be empty) -/
+def OptDS (l : List Char) (a : List Nat) : Prop := (l = [] ∧ a = []) ∨ DS 10 l a
+
+inductive Shape : List Char → Body → Prop
+  | point {ip fp a b} : radixChar ∉ ip → OptDS ip a → OptDS fp b → (ip ≠ [] ∨ fp ≠ []) →
+      Shape (ip ++ '.' :: fp) ⟨10, a ++ b, b.length, true⟩
+  | hex {x rest ds} : (x = 'x' ∨ x = 'X') → DS 16 rest ds → Shape ('0' :: x :: rest) ⟨16, ds, 0, false⟩
+  | bin {x rest ds} : (x = 'b' ∨ x = 'B') → DS 2 rest ds → Shape ('0' :: x :: rest) ⟨2, ds, 0, false⟩
+  | zero : Shape ['0'] ⟨10, [0], 0, false⟩
+  | octSep {rest ds} : DS 8 rest ds → Shape ('0' :: '\'' :: rest) ⟨8, ds, 0, false⟩
+  | oct {rest ds} : DS 8 rest ds → Shape ('0' :: rest) ⟨8, ds, 0, false⟩
+  | dec {c r ds} : c ≠ '0' → DS 10 (c :: r) ds → Shape (c :: r) ⟨10, ds, 0, false⟩
+
+theorem optDS_of (l : List Char) (a : List Nat) (h : (if l.isEmpty then some [] else digitSeq 10 l) = some a) : OptDS l a := by
+  cases l with
+  | nil => simp at h; exact Or.inl ⟨rfl, h⟩
+  | cons c l => simp at h; exact Or.inr (digitSeq_DS 10 _ _ h)
+
+theorem map_some_inv {α β : Type} {f : α → β} {o : Option α} {b : β} (h : o.map f = some b) : ∃ a, o = some a ∧ b = f a := by
+  cases o with
+  | none => cases h
+  | some a => exact ⟨a, rfl, by injection h with h; exact h.symm⟩
+
+theorem body_shape (r : List Char) (b : Body) (h : body r = some b) : Shape r b := by
+  unfold body at h
+  split at h
+  · rename_i ip fp hsp
+    obtain ⟨e, hn⟩ := splitAtPoint_some r ip fp hsp
+    by_cases hemp : ip.isEmpty = true ∧ fp.isEmpty = true
+    · simp only [hemp, and_self, ite_true] at h; cases h
+    · simp only [hemp, ite_false] at h
+      split at h
+      · rename_i a bb ha hb
+        injection h with h; subst h; subst e
+        refine Shape.point hn (optDS_of _ _ ha) (optDS_of _ _ hb) ?_
+        simp only [List.isEmpty_iff] at hemp
+        by_cases h1 : ip = []
+        · right; intro h2; exact hemp ⟨h1, h2⟩
+        · left; exact h1
+      · cases h
+  · split at h
+    · obtain ⟨ds, h1, rfl⟩ := map_some_inv h; exact Shape.hex (Or.inl rfl) (digitSeq_DS _ _ _ h1)
+    · obtain ⟨ds, h1, rfl⟩ := map_some_inv h; exact Shape.hex (Or.inr rfl) (digitSeq_DS _ _ _ h1)
+    · obtain ⟨ds, h1, rfl⟩ := map_some_inv h; exact Shape.bin (Or.inl rfl) (digitSeq_DS _ _ _ h1)
+    · obtain ⟨ds, h1, rfl⟩ := map_some_inv h; exact Shape.bin (Or.inr rfl) (digitSeq_DS _ _ _ h1)
+    · injection h with h; subst h; exact Shape.zero
+    · obtain ⟨ds, h1, rfl⟩ := map_some_inv h; exact Shape.octSep (digitSeq_DS _ _ _ h1)
+    · obtain ⟨ds, h1, rfl⟩ := map_some_inv h; exact Shape.oct (digitSeq_DS _ _ _ h1)
+    · obtain ⟨ds, h1, rfl⟩ := map_some_inv h
+      have hds := digitSeq_DS _ _ _ h1
+      obtain ⟨c, r', d0, ds', e, _, _⟩ := DS_head hds
+      subst e
+      refine Shape.dec ?_ hds
+      intro hc; subst hc
+      have hx : ∀ (rest : List Char), '0' :: r' = '0' :: rest → False := by assumption
+      exact hx r' rfl
+
+/-! ## evaluating `scan_base` on each shape of token -/
+
+theorem getD_of_drop {cs r : List Char} {offset : Nat} (h : cs.drop offset = r) (i : Nat) (d : Char) :
+    cs.getD (offset + i) d = r.getD i d := by
+  subst h
+  simp [List.getD_eq_getElem?_getD, List.getElem?_drop]
+
+theorem scanMsb_ok (cs : List Char) (neg : Bool) (base stride off mb nd F d0 : Nat)
+    (h : digitPos base (cs.getD (off + (if cs.getD off '\x00' == radixChar then 1 else 0)) '\x00') = some d0) :
+    scanMsb cs neg base stride off mb nd F = .ok ⟨neg, base, stride, off, mb - (if d0 * 2 < base then 1 else 0), nd, F⟩ := by
+  simp only [scanMsb, h]
+
+/-- number of characters between the sign and the first numeral -/
+def prefixLen (base : Nat) : Nat := if base = 16 ∨ base = 2 then 2 else if base = 8 then 1 else 0
+
+def strideOf (base : Nat) : Nat := if base = 10 then 18 else if base = 16 then 15 else if base = 8 then 21 else 63
+
+/-- what the scanner must report for a token body `b` found at `offset`, `F` being the reported
+number of fractional digits -/
+def expected (neg : Bool) (offset : Nat) (b : Body) (F : Nat) : Params :=
+  ⟨neg, b.base, strideOf b.base, offset + prefixLen b.base,
+   estimate b.base b.digits.length (b.digits.headD 0), b.digits.length, F⟩
+
+theorem scanMsb_digit {base : Nat} (hb : base = 2 ∨ base = 8 ∨ base = 10 ∨ base = 16) (cs : List Char) (neg : Bool)
+    (stride off mb nd F : Nat) {c : Char} {d0 : Nat} (hc : digitValue base c = some d0) (hget : cs.getD off '\x00' = c) :
+    scanMsb cs neg base stride off mb nd F = .ok ⟨neg, base, stride, off, mb - (if d0 * 2 < base then 1 else 0), nd, F⟩ := by
+  apply scanMsb_ok
+  have hne : (c == radixChar) = false := by
+    have := digitValue_ne hc radixChar (by decide); simp [this]
+  rw [hget, hne]
+  simp only [Bool.false_eq_true, ite_false, Nat.add_zero, hget]
+  exact digitValue_digitPos hb hc
+
+theorem scanCore_hex {x : Char} (hx : x = 'x' ∨ x = 'X') {rest : List Char} {ds : List Nat} (hds : DS 16 rest ds)
+    (cs : List Char) (neg : Bool) (offset F : Nat) (hcs : cs.drop offset = '0' :: x :: rest) (ho : offset ≤ 1) :
+    scanCore cs neg offset false (ds.length + 2) F = .ok (expected neg offset ⟨16, ds, 0, false⟩ F) := by
+  obtain ⟨c, r', d0, ds', e, eds, hc⟩ := DS_head hds
+  have g0 : cs.getD offset '\x00' = '0' := by have := getD_of_drop hcs 0 '\x00'; simpa using this
+  have g1 : cs.getD (offset + 1) '\x00' = x := by have := getD_of_drop hcs 1 '\x00'; simpa using this
+  have g2 : cs.getD (offset + 2) '\x00' = c := by have := getD_of_drop hcs 2 '\x00'; rw [e] at this; simpa using this
+  have hlen : 1 ≤ ds.length := by rw [eds]; simp
+  have hcond : ¬ (offset + 1 ≥ ds.length + 2) := by omega
+  have hB : (x == 'B' || x == 'b') = false := by rcases hx with rfl | rfl <;> decide
+  have hX : (x == 'X' || x == 'x') = true := by rcases hx with rfl | rfl <;> decide
+  unfold scanCore
+  simp only [g0, g1, hcond, hB, hX, bne_self_eq_false, Bool.or_false, Bool.false_eq_true, decide_false, ite_false, ite_true,
+    Nat.add_sub_cancel]
+  rw [scanMsb_digit (Or.inr (Or.inr (Or.inr rfl))) cs neg 15 (offset + 2) _ _ F hc g2]
+  simp [expected, strideOf, prefixLen, estimate, maxBits, eds]
+
+theorem scanCore_bin {x : Char} (hx : x = 'b' ∨ x = 'B') {rest : List Char} {ds : List Nat} (hds : DS 2 rest ds)
+    (cs : List Char) (neg : Bool) (offset F : Nat) (hcs : cs.drop offset = '0' :: x :: rest) (ho : offset ≤ 1) :
+    scanCore cs neg offset false (ds.length + 2) F = .ok (expected neg offset ⟨2, ds, 0, false⟩ F) := by
+  obtain ⟨c, r', d0, ds', e, eds, hc⟩ := DS_head hds
+  have g0 : cs.getD offset '\x00' = '0' := by have := getD_of_drop hcs 0 '\x00'; simpa using this
+  have g1 : cs.getD (offset + 1) '\x00' = x := by have := getD_of_drop hcs 1 '\x00'; simpa using this
+  have g2 : cs.getD (offset + 2) '\x00' = c := by have := getD_of_drop hcs 2 '\x00'; rw [e] at this; simpa using this
+  have hlen : 1 ≤ ds.length := by rw [eds]; simp
+  have hcond : ¬ (offset + 1 ≥ ds.length + 2) := by omega
+  have hB : (x == 'B' || x == 'b') = true := by rcases hx with rfl | rfl <;> decide
+  unfold scanCore
+  simp only [g0, g1, hcond, hB, bne_self_eq_false, Bool.or_false, Bool.false_eq_true, decide_false, ite_false, ite_true,
+    Nat.add_sub_cancel]
+  rw [scanMsb_digit (Or.inl rfl) cs neg 63 (offset + 2) _ _ F hc g2]
+  simp [expected, strideOf, prefixLen, estimate, maxBits, eds]
+
+theorem digitValue_oct_le {c : Char} {d : Nat} (h : digitValue 8 c = some d) : c.toNat ≤ 57 := by
+  obtain ⟨h1, h2⟩ := digitValue_range h
+  omega
+
+theorem scanCore_oct {rest : List Char} {ds : List Nat} (hds : DS 8 rest ds)
+    (cs : List Char) (neg : Bool) (offset F : Nat) (hcs : cs.drop offset = '0' :: rest) (ho : offset < ds.length) :
+    scanCore cs neg offset false (ds.length + 1) F = .ok (expected neg offset ⟨8, ds, 0, false⟩ F) := by
+  obtain ⟨c, r', d0, ds', e, eds, hc⟩ := DS_head hds
+  have g0 : cs.getD offset '\x00' = '0' := by have := getD_of_drop hcs 0 '\x00'; simpa using this
+  have g1 : cs.getD (offset + 1) '\x00' = c := by have := getD_of_drop hcs 1 '\x00'; rw [e] at this; simpa using this
+  have hcond : ¬ (offset + 1 ≥ ds.length + 1) := by omega
+  have hle := digitValue_oct_le hc
+  have hne : ∀ y : Char, 57 < y.toNat → (c == y) = false := by
+    intro y hy; simp only [beq_eq_false_iff_ne, ne_eq]; intro e; subst e; omega
+  have hB : (c == 'B' || c == 'b') = false := by rw [hne 'B' (by decide), hne 'b' (by decide)]; rfl
+  have hX : (c == 'X' || c == 'x') = false := by rw [hne 'X' (by decide), hne 'x' (by decide)]; rfl
+  unfold scanCore
+  simp only [g0, g1, hcond, hB, hX, bne_self_eq_false, Bool.or_false, Bool.false_eq_true, decide_false, ite_false,
+    Nat.add_sub_cancel]
+  rw [scanMsb_digit (Or.inr (Or.inl rfl)) cs neg 21 (offset + 1) _ _ F hc g1]
+  simp [expected, strideOf, prefixLen, estimate, maxBits, eds]
+
+/-- the decimal branch of `scan_base` -/
+theorem scanCore_decimal (cs : List Char) (neg : Bool) (offset : Nat) (H : Bool) (N F d0 : Nat)
+    (hcond : ((cs.getD offset '\x00' != '0' || H) || decide (offset + 1 ≥ N)) = true)
+    (hd : digitPos 10 (cs.getD (offset + (if cs.getD offset '\x00' == radixChar then 1 else 0)) '\x00') = some d0) :
+    scanCore cs neg offset H N F
+      = .ok ⟨neg, 10, 18, offset, decimalBits N - (if d0 * 2 < 10 then 1 else 0), N, F⟩ := by
+  unfold scanCore
+  rw [if_pos hcond]
+  exact scanMsb_ok cs neg 10 18 offset _ N F d0 hd
+
+theorem scanCore_dec {c : Char} {r : List Char} {ds : List Nat} (hc0 : c ≠ '0') (hds : DS 10 (c :: r) ds)
+    (cs : List Char) (neg : Bool) (offset F : Nat) (hcs : cs.drop offset = c :: r) :
+    scanCore cs neg offset false ds.length F = .ok (expected neg offset ⟨10, ds, 0, false⟩ F) := by
+  obtain ⟨c', r', d0, ds', e, eds, hc⟩ := DS_head hds
+  injection e with e1 e2; subst e1; subst e2
+  have g0 : cs.getD offset '\x00' = c := by have := getD_of_drop hcs 0 '\x00'; simpa using this
+  have hne : (c == radixChar) = false := by
+    have := digitValue_ne hc radixChar (by decide); simp [this]
+  rw [scanCore_decimal cs neg offset false ds.length F d0 (by rw [g0]; simp [hc0])
+    (by rw [g0, hne]; simp only [Bool.false_eq_true, ite_false, Nat.add_zero, g0]; exact digitValue_digitPos (Or.inr (Or.inr (Or.inl rfl))) hc)]
+  simp [expected, strideOf, prefixLen, estimate, maxBits, eds]
+
+theorem scanCore_zero (cs : List Char) (neg : Bool) (offset F : Nat) (hcs : cs.drop offset = ['0']) :
+    scanCore cs neg offset false 1 F = .ok (expected neg offset ⟨10, [0], 0, false⟩ F) := by
+  have g0 : cs.getD offset '\x00' = '0' := by have := getD_of_drop hcs 0 '\x00'; simpa using this
+  rw [scanCore_decimal cs neg offset false 1 F 0 (by simp)
+    (by have h0 : ('0' == radixChar) = false := by decide
+        rw [g0, h0]; simp only [Bool.false_eq_true, ite_false, Nat.add_zero, g0]; decide)]
+  simp [expected, strideOf, prefixLen, estimate, maxBits]
+
+theorem scanCore_point {ip fp : List Char} {a b : List Nat} (ha : OptDS ip a) (hb : OptDS fp b) (hne : ip ≠ [] ∨ fp ≠ [])
+    (cs : List Char) (neg : Bool) (offset F : Nat) (hcs : cs.drop offset = ip ++ '.' :: fp) :
+    scanCore cs neg offset true (a.length + b.length) F = .ok (expected neg offset ⟨10, a ++ b, b.length, true⟩ F) := by
+  rcases ha with ⟨rfl, rfl⟩ | ha
+  · -- `.digits`
+    rcases hb with ⟨rfl, rfl⟩ | hb
+    · simp at hne
+    · obtain ⟨c, r', d0, ds', e, eds, hc⟩ := DS_head hb
+      subst e
+      have g0 : cs.getD offset '\x00' = '.' := by have := getD_of_drop hcs 0 '\x00'; simpa using this
+      have g1 : cs.getD (offset + 1) '\x00' = c := by have := getD_of_drop hcs 1 '\x00'; simpa using this
+      rw [scanCore_decimal cs neg offset true _ F d0 (by simp)
+        (by rw [g0]; simp only [radixChar, beq_self_eq_true, ite_true, g1]; exact digitValue_digitPos (Or.inr (Or.inr (Or.inl rfl))) hc)]
+      simp [expected, strideOf, prefixLen, estimate, maxBits, eds]
+  · obtain ⟨c, r', d0, ds', e, eds, hc⟩ := DS_head ha
+    subst e
+    have g0 : cs.getD offset '\x00' = c := by have := getD_of_drop hcs 0 '\x00'; simpa using this
+    have hner : (c == radixChar) = false := by
+      have := digitValue_ne hc radixChar (by decide); simp [this]
+    rw [scanCore_decimal cs neg offset true _ F d0 (by simp)
+      (by rw [g0, hner]; simp only [Bool.false_eq_true, ite_false, Nat.add_zero, g0]; exact digitValue_digitPos (Or.inr (Or.inr (Or.inl rfl))) hc)]
+    have e3 : ds'.length + 1 + b.length = ds'.length + b.length + 1 := by omega
+    simp [expected, strideOf, prefixLen, estimate, maxBits, eds, e3]
+
+/-! ## counting: `num_non_separators` is the number of digits plus the base prefix -/
+
+/-- a run of `n` non-separator characters and some separators, no radix point, not ending in a separator -/
+structure Plain (r : List Char) (n : Nat) : Prop where
+  noRadix : radixChar ∉ r
+  len : r.length = n + r.count separator
+  last : ∃ r' x, r = r' ++ [x] ∧ x ≠ separator
+
+theorem DS_plain {base : Nat} {r : List Char} {ds : List Nat} (h : DS base r ds) : Plain r ds.length := by
+  obtain ⟨r', x, d, e, hx⟩ := DS_last h
+  exact ⟨DS_noRadix h, DS_length h, r', x, e, digitValue_ne hx separator (by decide)⟩
+
+theorem Plain.cons {r : List Char} {n : Nat} (h : Plain r n) (c : Char) (h1 : c ≠ radixChar) (h2 : c ≠ separator) :
+    Plain (c :: r) (n + 1) := by
+  obtain ⟨hn, hl, r', x, e, hx⟩ := h
+  refine ⟨?_, ?_, c :: r', x, by rw [e]; rfl, hx⟩
+  · simp only [List.mem_cons, not_or]; exact ⟨h1.symm, hn⟩
+  · rw [List.length_cons, List.count_cons_of_ne h2, hl]; omega
+
+theorem plain_zero : Plain ['0'] 1 := ⟨by decide, by decide, [], '0', rfl, by decide⟩
+
+theorem take_signed (s x : Char) (r' : List Char) : (s :: (r' ++ [x])).take (r' ++ [x]).length = s :: r' := by
+  simp
+
+theorem Plain.unsigned {r : List Char} {n : Nat} (h : Plain r n) : scanBody (r.take r.length) r.length = (false, n, 0) := by
+  rw [List.take_length, scanBody_noRadix _ _ h.noRadix, h.len]
+  simp
+
+theorem Plain.signed {r : List Char} {n : Nat} (h : Plain r n) (s : Char) (h1 : s ≠ radixChar) (h2 : s ≠ separator) :
+    scanBody ((s :: r).take r.length) r.length = (false, n, 0) := by
+  obtain ⟨hn, hl, r', x, e, hx⟩ := h
+  subst e
+  have hn' : radixChar ∉ s :: r' := by
+    simp only [List.mem_cons, List.mem_append, not_or] at hn ⊢
+    exact ⟨h1.symm, hn.1⟩
+  rw [take_signed, scanBody_noRadix _ _ hn', hl]
+  rw [List.count_cons_of_ne h2, List.count_append, List.count_cons_of_ne hx]
+  simp
+
+theorem OptDS.length_eq {l : List Char} {a : List Nat} (h : OptDS l a) : l.length = a.length + l.count separator := by
+  rcases h with ⟨rfl, rfl⟩ | h
+  · rfl
+  · exact DS_length h
+
+theorem OptDS.noRadix {l : List Char} {a : List Nat} (h : OptDS l a) : radixChar ∉ l := by
+  rcases h with ⟨rfl, rfl⟩ | h
+  · simp
+  · exact DS_noRadix h
+
+theorem point_unsigned {ip fp : List Char} {a b : List Nat} (ha : OptDS ip a) (hb : OptDS fp b) :
+    scanBody ((ip ++ '.' :: fp).take (ip ++ '.' :: fp).length) (ip ++ '.' :: fp).length
+      = (true, a.length + b.length, b.length) := by
+  rw [List.take_length]
+  show scanBody (ip ++ radixChar :: fp) _ = _
+  rw [scanBody_radix _ ip fp ha.noRadix, List.length_append, List.length_cons, ha.length_eq, hb.length_eq]
+  congr 2 <;> omega
+
+theorem point_signed {ip fp : List Char} {a b : List Nat} (ha : OptDS ip a) (hb : DS 10 fp b) (s : Char)
+    (h1 : s ≠ radixChar) (h2 : s ≠ separator) :
+    scanBody ((s :: (ip ++ '.' :: fp)).take (ip ++ '.' :: fp).length) (ip ++ '.' :: fp).length
+      = (true, a.length + b.length, b.length - 1) := by
+  obtain ⟨fp', x, d, e, hx⟩ := DS_last hb
+  have hxs : x ≠ separator := digitValue_ne hx separator (by decide)
+  have hl := DS_length hb
+  subst e
+  have e1 : ip ++ '.' :: (fp' ++ [x]) = (ip ++ '.' :: fp') ++ [x] := by simp
+  have e2 : s :: (ip ++ '.' :: fp') = (s :: ip) ++ radixChar :: fp' := rfl
+  have hn' : radixChar ∉ s :: ip := by
+    simp only [List.mem_cons, not_or]; exact ⟨h1.symm, ha.noRadix⟩
+  rw [e1, take_signed, e2, scanBody_radix _ _ _ hn']
+  rw [List.count_cons_of_ne h2]
+  rw [List.count_append, List.count_cons_of_ne hxs] at hl
+  have hla := ha.length_eq
+  simp only [List.length_append, List.length_cons, List.length_nil, List.count_nil] at hl ⊢
+  congr 2 <;> omega
+
+/-! ## `scan_base` on a well-formed token body -/
+
+theorem scanBase_of_body (cs : List Char) (neg : Bool) (offset length : Nat) (H : Bool) (N F : Nat)
+    (h : scanBody (cs.take length) length = (H, N, F)) : scanBase cs neg offset length = scanCore cs neg offset H N F := by
+  rw [scanBase_eq, h]
+
+theorem DS_pos {base : Nat} {r : List Char} {ds : List Nat} (h : DS base r ds) : 1 ≤ ds.length := by
+  obtain ⟨_, _, _, _, _, e, _⟩ := DS_head h
+  rw [e]; simp
+
+theorem hexch_ne {x : Char} (hx : x = 'x' ∨ x = 'X') : x ≠ radixChar ∧ x ≠ separator := by
+  rcases hx with rfl | rfl <;> decide
+
+theorem binch_ne {x : Char} (hx : x = 'b' ∨ x = 'B') : x ≠ radixChar ∧ x ≠ separator := by
+  rcases hx with rfl | rfl <;> decide
+
+/-- an unsigned token body: `scan_base(str, neg, 0, length)` -/
+theorem scanBase_unsigned {r : List Char} {b : Body} (hs : Shape r b) (hno : ∀ rest, r ≠ '0' :: '\'' :: rest) (neg : Bool) :
+    scanBase r neg 0 r.length = .ok (expected neg 0 b b.frac) := by
+  cases hs with
+  | point hn ha hb hne =>
+    rw [scanBase_of_body _ _ _ _ _ _ _ (point_unsigned ha hb)]
+    exact scanCore_point ha hb hne _ neg 0 _ rfl
+  | hex hx hds =>
+    have hp := ((DS_plain hds).cons _ (hexch_ne hx).1 (hexch_ne hx).2).cons '0' (by decide) (by decide)
+    rw [scanBase_of_body _ _ _ _ _ _ _ hp.unsigned]
+    exact scanCore_hex hx hds _ neg 0 _ rfl (by omega)
+  | bin hx hds =>
+    have hp := ((DS_plain hds).cons _ (binch_ne hx).1 (binch_ne hx).2).cons '0' (by decide) (by decide)
+    rw [scanBase_of_body _ _ _ _ _ _ _ hp.unsigned]
+    exact scanCore_bin hx hds _ neg 0 _ rfl (by omega)
+  | zero =>
+    rw [scanBase_of_body _ _ _ _ _ _ _ plain_zero.unsigned]
+    exact scanCore_zero _ neg 0 _ rfl
+  | octSep _ => exact absurd rfl (hno _)
+  | oct hds =>
+    have hp := (DS_plain hds).cons '0' (by decide) (by decide)
+    rw [scanBase_of_body _ _ _ _ _ _ _ hp.unsigned]
+    exact scanCore_oct hds _ neg 0 _ rfl (DS_pos hds)
+  | dec hc0 hds =>
+    rw [scanBase_of_body _ _ _ _ _ _ _ (DS_plain hds).unsigned]
+    exact scanCore_dec hc0 hds _ neg 0 _ rfl
+
+/-- a signed token body: `scan_base(str, neg, 1, length - 1)`, the searched range being the sign and
+all but the last character -/
+theorem scanBase_signed {r : List Char} {b : Body} (hs : Shape r b) (hno : ∀ rest, r ≠ '0' :: '\'' :: rest)
+    (hoct : ¬ (b.base = 8 ∧ b.digits.length = 1)) (htp : ¬ (b.hasPoint = true ∧ b.frac = 0))
+    (s : Char) (h1 : s ≠ radixChar) (h2 : s ≠ separator) (neg : Bool) :
+    scanBase (s :: r) neg 1 r.length = .ok (expected neg 1 b (b.frac - 1)) := by
+  cases hs with
+  | point hn ha hb hne =>
+    rcases hb with ⟨_, rfl⟩ | hb
+    · exact absurd ⟨rfl, rfl⟩ htp
+    · rw [scanBase_of_body _ _ _ _ _ _ _ (point_signed ha hb s h1 h2)]
+      exact scanCore_point ha (Or.inr hb) hne _ neg 1 _ rfl
+  | hex hx hds =>
+    have hp := ((DS_plain hds).cons _ (hexch_ne hx).1 (hexch_ne hx).2).cons '0' (by decide) (by decide)
+    rw [scanBase_of_body _ _ _ _ _ _ _ (hp.signed s h1 h2)]
+    exact scanCore_hex hx hds _ neg 1 _ rfl (by omega)
+  | bin hx hds =>
+    have hp := ((DS_plain hds).cons _ (binch_ne hx).1 (binch_ne hx).2).cons '0' (by decide) (by decide)
+    rw [scanBase_of_body _ _ _ _ _ _ _ (hp.signed s h1 h2)]
+    exact scanCore_bin hx hds _ neg 1 _ rfl (by omega)
+  | zero =>
+    rw [scanBase_of_body _ _ _ _ _ _ _ (plain_zero.signed s h1 h2)]
+    exact scanCore_zero _ neg 1 _ rfl
+  | octSep _ => exact absurd rfl (hno _)
+  | oct hds =>
+    have hp := (DS_plain hds).cons '0' (by decide) (by decide)
+    rw [scanBase_of_body _ _ _ _ _ _ _ (hp.signed s h1 h2)]
+    have := DS_pos hds
+    exact scanCore_oct hds _ neg 1 _ rfl (by simp at hoct; omega)
+  | dec hc0 hds =>
+    rw [scanBase_of_body _ _ _ _ _ _ _ ((DS_plain hds).signed s h1 h2)]
+    exact scanCore_dec hc0 hds _ neg 1 _ rfl
+
+/-! ## `scan_string` and the digits `parse_string` will read -/
+
+theorem scanString_plus (r : List Char) : scanString ('+' :: r) = scanBase ('+' :: r) false 1 r.length := rfl
+theorem scanString_minus (r : List Char) : scanString ('-' :: r) = scanBase ('-' :: r) true 1 r.length := rfl
+
+theorem scanString_other (cs : List Char) (h1 : ∀ r, cs ≠ '+' :: r) (h2 : ∀ r, cs ≠ '-' :: r) :
+    scanString cs = scanBase cs false 0 cs.length := by
+  unfold scanString
+  split
+  · exact absurd rfl (h1 _)
+  · exact absurd rfl (h2 _)
+  · rfl
+
+/-- the three ways a token is built from a body -/
+theorem token_cases (cs : List Char) (t : Token) (h : token cs = some t) :
+    (∃ r b, cs = '+' :: r ∧ body r = some b ∧ t = ⟨false, true, b⟩) ∨
+    (∃ r b, cs = '-' :: r ∧ body r = some b ∧ t = ⟨true, true, b⟩) ∨
+    ((∀ r, cs ≠ '+' :: r) ∧ (∀ r, cs ≠ '-' :: r) ∧ ∃ b, body cs = some b ∧ t = ⟨false, false, b⟩) := by
+  unfold token at h
+  split at h
+  · obtain ⟨b, hb, rfl⟩ := map_some_inv h; exact Or.inl ⟨_, b, rfl, hb, rfl⟩
+  · obtain ⟨b, hb, rfl⟩ := map_some_inv h; exact Or.inr (Or.inl ⟨_, b, rfl, hb, rfl⟩)
+  · obtain ⟨b, hb, rfl⟩ := map_some_inv h
+    refine Or.inr (Or.inr ⟨?_, ?_, b, hb, rfl⟩)
+    · intro r e; subst e; rename_i h1 _; exact h1 r rfl
+    · intro r e; subst e; rename_i _ h2; exact h2 r rfl
+
+theorem DS_read_more {base : Nat} (hb : base = 2 ∨ base = 8 ∨ base = 10 ∨ base = 16) {r : List Char} {ds : List Nat}
+    (h : DS base r ds) : ∀ (tail : List Char) (m : Nat),
+      readDigits base (r ++ tail) (ds.length + m) = readDigits base tail m >>= fun q => .ok (ds ++ q.1, q.2) := by
+  induction h with
+  | @one c d hc =>
+    intro tail m
+    have e : [d].length + m = m + 1 := by simp [Nat.add_comm]
+    rw [e]
+    show readDigits base (c :: tail) (m + 1) = _
+    rw [readDigits_digit hb hc]; rfl
+  | @sep c d rest ds hc hr ih =>
+    intro tail m
+    obtain ⟨_, _, d0, ds', _, e, _⟩ := DS_head hr
+    have e1 : (d :: ds).length + m = (ds'.length + m + 1) + 1 := by rw [e]; simp; omega
+    have e2 : ds.length + m = ds'.length + m + 1 := by rw [e]; simp; omega
+    rw [e1]
+    show readDigits base (c :: '\'' :: (rest ++ tail)) (ds'.length + m + 1 + 1) = _
+    rw [readDigits_digit hb hc, readDigits_sep, ← e2, ih tail m]
+    cases readDigits base tail m <;> rfl
+  | @cons c d rest ds hc hr ih =>
+    intro tail m
+    have e1 : (d :: ds).length + m = (ds.length + m) + 1 := by simp; omega
+    rw [e1]
+    show readDigits base (c :: (rest ++ tail)) (ds.length + m + 1) = _
+    rw [readDigits_digit hb hc, ih tail m]
+    cases readDigits base tail m <;> rfl
+
+theorem DS_read_self {base : Nat} (hb : base = 2 ∨ base = 8 ∨ base = 10 ∨ base = 16) {r : List Char} {ds : List Nat}
+    (h : DS base r ds) : readDigits base r ds.length = .ok (ds, []) := by
+  have := DS_read hb h []
+  rwa [List.append_nil] at this
+
+theorem shape_base {r : List Char} {b : Body} (hs : Shape r b) : StrideOK b.base (strideOf b.base) := by
+  cases hs <;> simp [StrideOK, strideOf]
+
+theorem OptDS.lt {l : List Char} {a : List Nat} (h : OptDS l a) : ∀ d ∈ a, d < 10 := by
+  rcases h with ⟨_, rfl⟩ | h
+  · intro d hd; cases hd
+  · exact DS_lt h
+
+theorem shape_lt {r : List Char} {b : Body} (hs : Shape r b) : ∀ d ∈ b.digits, d < b.base := by
+  cases hs with
+  | point hn ha hb hne =>
+    intro d hd
+    rcases List.mem_append.mp hd with h | h
+    · exact ha.lt d h
+    · exact hb.lt d h
+  | hex _ hds => exact DS_lt hds
+  | bin _ hds => exact DS_lt hds
+  | zero => intro d hd; simp at hd; subst hd; decide
+  | octSep hds => exact DS_lt hds
+  | oct hds => exact DS_lt hds
+  | dec _ hds => exact DS_lt hds
+
+/-- behind the first numeral stand exactly the digits of the grammar -/
+theorem read_body {r : List Char} {b : Body} (hs : Shape r b) (hno : ∀ rest, r ≠ '0' :: '\'' :: rest) :
+    ∃ rest, readDigits b.base (r.drop (prefixLen b.base)) b.digits.length = .ok (b.digits, rest) := by
+  cases hs with
+  | @point ip fp a bb hn ha hb hne =>
+    show ∃ rest, readDigits 10 (ip ++ '.' :: fp) (a ++ bb).length = .ok (a ++ bb, rest)
+    rw [List.length_append]
+    have h10 : (10:Nat) = 2 ∨ (10:Nat) = 8 ∨ (10:Nat) = 10 ∨ (10:Nat) = 16 := Or.inr (Or.inr (Or.inl rfl))
+    rcases hb with ⟨rfl, rfl⟩ | hb
+    · rcases ha with ⟨rfl, _⟩ | ha
+      · simp at hne
+      · exact ⟨['.'], by simpa using DS_read h10 ha ['.']⟩
+    · have hfp : readDigits 10 ('.' :: fp) bb.length = .ok (bb, []) := by
+        obtain ⟨k, hk⟩ : ∃ k, bb.length = k + 1 := ⟨bb.length - 1, by have := DS_pos hb; omega⟩
+        rw [hk, readDigits_radix, ← hk]; exact DS_read_self h10 hb
+      rcases ha with ⟨rfl, rfl⟩ | ha
+      · exact ⟨[], by simpa using hfp⟩
+      · exact ⟨[], by rw [DS_read_more h10 ha, hfp]; rfl⟩
+  | hex _ hds => exact ⟨[], DS_read_self (Or.inr (Or.inr (Or.inr rfl))) hds⟩
+  | bin _ hds => exact ⟨[], DS_read_self (Or.inl rfl) hds⟩
+  | zero => exact ⟨[], by decide⟩
+  | octSep _ => exact absurd rfl (hno _)
+  | oct hds => exact ⟨[], DS_read_self (Or.inr (Or.inl rfl)) hds⟩
+  | dec _ hds => exact ⟨[], DS_read_self (Or.inr (Or.inr (Or.inl rfl))) hds⟩
+
+/-! ## the scanner/grammar link -/
+
+/-- the leading `0` of an octal token is directly followed by a digit separator (`0'17`):
+open finding `C15.octal_separator_after_prefix` -/
+def OctSep (cs : List Char) (t : Token) : Prop :=
+  (t.signed = false ∧ cs.take 2 = ['0', '\'']) ∨ (t.signed = true ∧ (cs.drop 1).take 2 = ['0', '\''])
+instance (cs : List Char) (t : Token) : Decidable (OctSep cs t) := by unfold OctSep; exact inferInstance
+
+/-- a signed one-digit octal token (`-07`): `scan_base` reads it as the two-digit decimal `07` -/
+def SignedOctalDigit (t : Token) : Prop := t.signed = true ∧ t.body.base = 8 ∧ t.body.digits.length = 1
+instance (t : Token) : Decidable (SignedOctalDigit t) := by unfold SignedOctalDigit; exact inferInstance
+
+/-- a signed token ending in the radix point (`-5.`): the searched range `[str, str+length-1)`
+misses the point, so one digit too many is counted -/
+def SignedTrailingPoint (t : Token) : Prop := t.signed = true ∧ t.body.hasPoint = true ∧ t.body.frac = 0
+instance (t : Token) : Decidable (SignedTrailingPoint t) := by unfold SignedTrailingPoint; exact inferInstance
+
+/-- what `scan_string` must return for the token `t` -/
+def expectedParams (t : Token) : Params :=
+  expected t.negative (if t.signed then 1 else 0) t.body (if t.signed then t.body.frac - 1 else t.body.frac)
+
+/-- **the scanner finds what the grammar says**: for every well-formed token of any length outside
+the three excluded corners, `scan_string` returns sign, base, stride, first numeral, width
+estimate, digit count (and, for an unsigned token, the number of fractional digits) of the grammar,
+and behind the first numeral `parse_string` reads exactly the grammar's digits -/
+theorem token_scanned (cs : List Char) (t : Token) (h : token cs = some t)
+    (h1 : ¬ OctSep cs t) (h2 : ¬ SignedOctalDigit t) (h3 : ¬ SignedTrailingPoint t) :
+    scanString cs = .ok (expectedParams t) ∧
+    ∃ rest, readDigits t.body.base (cs.drop (expectedParams t).firstNumeral) t.body.digits.length
+      = .ok (t.body.digits, rest) := by
+  rcases token_cases cs t h with ⟨r, b, rfl, hb, rfl⟩ | ⟨r, b, rfl, hb, rfl⟩ | ⟨hp, hm, b, hb, rfl⟩
+  · have hs := body_shape r b hb
+    have hno : ∀ rest, r ≠ '0' :: '\'' :: rest := by
+      intro rest e; subst e; exact h1 (Or.inr ⟨rfl, rfl⟩)
+    refine ⟨?_, ?_⟩
+    · rw [scanString_plus]
+      exact scanBase_signed hs hno (fun hh => h2 ⟨rfl, hh.1, hh.2⟩) (fun hh => h3 ⟨rfl, hh.1, hh.2⟩) '+' (by decide) (by decide) false
+    · obtain ⟨rest, hr⟩ := read_body hs hno
+      refine ⟨rest, ?_⟩
+      show readDigits b.base (('+' :: r).drop (1 + prefixLen b.base)) _ = _
+      rw [Nat.add_comm, List.drop_succ_cons]; exact hr
+  · have hs := body_shape r b hb
+    have hno : ∀ rest, r ≠ '0' :: '\'' :: rest := by
+      intro rest e; subst e; exact h1 (Or.inr ⟨rfl, rfl⟩)
+    refine ⟨?_, ?_⟩
+    · rw [scanString_minus]
+      exact scanBase_signed hs hno (fun hh => h2 ⟨rfl, hh.1, hh.2⟩) (fun hh => h3 ⟨rfl, hh.1, hh.2⟩) '-' (by decide) (by decide) true
+    · obtain ⟨rest, hr⟩ := read_body hs hno
+      refine ⟨rest, ?_⟩
+      show readDigits b.base (('-' :: r).drop (1 + prefixLen b.base)) _ = _
+      rw [Nat.add_comm, List.drop_succ_cons]; exact hr
+  · have hs := body_shape cs b hb
+    have hno : ∀ rest, cs ≠ '0' :: '\'' :: rest := by
+      intro rest e; subst e; exact h1 (Or.inl ⟨rfl, rfl⟩)
+    refine ⟨?_, ?_⟩
+    · rw [scanString_other cs hp hm]
+      exact scanBase_unsigned hs hno false
+    · obtain ⟨rest, hr⟩ := read_body hs hno
+      refine ⟨rest, ?_⟩
+      show readDigits b.base (cs.drop (0 + prefixLen b.base)) _ = _
+      rw [Nat.zero_add]; exact hr
+
+theorem token_stride (cs : List Char) (t : Token) (h : token cs = some t) :
+    StrideOK t.body.base (strideOf t.body.base) ∧ ∀ d ∈ t.body.digits, d < t.body.base := by
+  rcases token_cases cs t h with ⟨r, b, rfl, hb, rfl⟩ | ⟨r, b, rfl, hb, rfl⟩ | ⟨hp, hm, b, hb, rfl⟩
+  · exact ⟨shape_base (body_shape r b hb), shape_lt (body_shape r b hb)⟩
+  · exact ⟨shape_base (body_shape r b hb), shape_lt (body_shape r b hb)⟩
+  · exact ⟨shape_base (body_shape cs b hb), shape_lt (body_shape cs b hb)⟩
+
+
+/-! ## unsigned built-in results (`uint64`, `unsigned __int128`): arithmetic modulo `2^bits` -/
+
+/-- an unsigned built-in type at least as wide as the `int64` chunks -/
+def UnsignedWide (t : IntTy) : Prop := t.signed = false ∧ 64 ≤ t.bits
+
+theorem wrap_eq_of_rel (t : IntTy) {a b : Int} (h : ∃ k : Int, a = b + k * 2 ^ t.bits) : t.wrap a = t.wrap b := by
+  obtain ⟨k, h⟩ := h; exact wrap_congr t a b k h
+
+theorem wrap_wrap (t : IntTy) (a : Int) : t.wrap (t.wrap a) = t.wrap a := by
+  obtain ⟨k, h⟩ := wrap_rel t a
+  exact wrap_congr t _ _ k h
+
+theorem wrap_add_wrap (t : IntTy) (a b : Int) : t.wrap (t.wrap a + t.wrap b) = t.wrap (a + b) := by
+  obtain ⟨k1, h1⟩ := wrap_rel t a
+  obtain ⟨k2, h2⟩ := wrap_rel t b
+  apply wrap_congr t _ _ (k1 + k2)
+  rw [h1, h2, Int.add_mul]; omega
+
+theorem wrap_mul_wrap (t : IntTy) (a b : Int) : t.wrap (t.wrap a * t.wrap b) = t.wrap (a * b) := by
+  obtain ⟨k1, h1⟩ := wrap_rel t a
+  obtain ⟨k2, h2⟩ := wrap_rel t b
+  apply wrap_congr t _ _ (a * k2 + k1 * b + k1 * k2 * 2 ^ t.bits)
+  rw [h1, h2]
+  generalize (2:Int) ^ t.bits = M
+  simp only [Int.add_mul, Int.mul_add, Int.mul_assoc]
+  have e1 : k1 * (M * b) = k1 * (b * M) := by rw [Int.mul_comm M b]
+  have e2 : k1 * (M * (k2 * M)) = k1 * (k2 * (M * M)) := by
+    rw [← Int.mul_assoc M k2 M, Int.mul_comm M k2, Int.mul_assoc k2 M M]
+  rw [e1, e2]; omega
+
+theorem wrap_mul_left (t : IntTy) (a F c : Int) : t.wrap (t.wrap a * F + c) = t.wrap (a * F + c) := by
+  obtain ⟨k1, h1⟩ := wrap_rel t a
+  apply wrap_congr t _ _ (k1 * F)
+  rw [h1, Int.add_mul, Int.mul_assoc k1, Int.mul_comm (2 ^ t.bits) F, ← Int.mul_assoc k1]
+  omega
+
+theorem usualArith_unsigned {t : IntTy} (h : UnsignedWide t) : usualArith t i64 = t := by
+  obtain ⟨hs, hb⟩ := h
+  have h1 : ¬ t.bits < 32 := by omega
+  simp [usualArith, promote, h1, hs, i64, hb]
+
+theorem promote_unsignedWide {t : IntTy} (h : UnsignedWide t) : promote t = t := by
+  have h1 : ¬ t.bits < 32 := by have := h.2; omega
+  simp [promote, h1]
+
+theorem cBin_mul_unsigned {t : IntTy} (h : UnsignedWide t) (x c : Int) :
+    cBin .mul (t, x) (i64, c) = .ok (t, t.wrap (x * c)) := by
+  simp only [cBin, usualArith_unsigned h, arith, h.1, Bool.false_eq_true, ite_false]
+  rw [wrap_mul_wrap]
+
+theorem cBin_add_unsigned {t : IntTy} (h : UnsignedWide t) (x c : Int) :
+    cBin .add (t, x) (i64, c) = .ok (t, t.wrap (x + c)) := by
+  simp only [cBin, usualArith_unsigned h, arith, h.1, Bool.false_eq_true, ite_false]
+  rw [wrap_add_wrap]
+
+theorem cBin_shl_unsigned {t : IntTy} (h : UnsignedWide t) (x : Int) (k : Nat) (hk : k < 64) :
+    cBin .shl (t, x) (i32, (k : Int)) = .ok (t, t.wrap (x * 2 ^ k)) := by
+  simp only [cBin, promote_unsignedWide h]
+  have : ¬ ((k : Int) < 0 ∨ (k : Int) ≥ (t.bits : Int)) := by have := h.2; omega
+  simp only [this, ite_false, Int.toNat_natCast]
+
+theorem wrap_add_left (t : IntTy) (a c : Int) : t.wrap (t.wrap a + c) = t.wrap (a + c) := by
+  obtain ⟨k1, h1⟩ := wrap_rel t a
+  apply wrap_congr t _ _ k1
+  rw [h1]; omega
+
+/-- the chunk step in an unsigned built-in type multiplies by `base^stride` and adds, modulo `2^bits` -/
+theorem chunkStep_unsigned {base stride : Nat} (hs : StrideOK base stride) {t : IntTy} (h : UnsignedWide t) (X c : Int) :
+    chunkStep (.builtin t) base X c = .ok (t.wrap (X * ((base ^ stride : Nat) : Int) + c)) := by
+  have fin : ∀ F : Int, t.wrap (t.wrap (t.wrap (t.wrap (X * F)) + c)) = t.wrap (X * F + c) := by
+    intro F
+    rw [wrap_wrap, wrap_wrap, wrap_add_left]
+  rcases hs with ⟨rfl, rfl⟩ | ⟨rfl, rfl⟩ | ⟨rfl, rfl⟩ | ⟨rfl, rfl⟩
+  · have e : ((10 ^ 18 : Nat) : Int) = 1000000000000000000 := by decide +kernel
+    rw [e]
+    simp only [chunkStep, ite_true]
+    rw [cBin_mul_unsigned h]; simp only [Res.bind_ok]
+    rw [cBin_add_unsigned h]; simp only [Res.bind_ok]
+    rw [fin]
+  · have e : ((16 ^ 15 : Nat) : Int) = 2 ^ 60 := by decide +kernel
+    rw [e]
+    simp only [chunkStep, chunkShift, show (16:Nat) ≠ 10 by decide, ite_false, ite_true, or_true]
+    rw [cBin_shl_unsigned h X 60 (by decide)]; simp only [Res.bind_ok]
+    rw [cBin_add_unsigned h]; simp only [Res.bind_ok]
+    rw [fin]
+  · have e : ((8 ^ 21 : Nat) : Int) = 2 ^ 63 := by decide +kernel
+    rw [e]
+    simp only [chunkStep, chunkShift, show (8:Nat) ≠ 10 by decide, show (8:Nat) ≠ 16 by decide, show (8:Nat) ≠ 2 by decide,
+      ite_false, ite_true, or_true, true_or]
+    rw [cBin_shl_unsigned h X 63 (by decide)]; simp only [Res.bind_ok]
+    rw [cBin_add_unsigned h]; simp only [Res.bind_ok]
+    rw [fin]
+  · have e : ((2 ^ 63 : Nat) : Int) = 2 ^ 63 := by decide +kernel
+    rw [e]
+    simp only [chunkStep, chunkShift, show (2:Nat) ≠ 10 by decide, show (2:Nat) ≠ 16 by decide, ite_false, ite_true, true_or]
+    rw [cBin_shl_unsigned h X 63 (by decide)]; simp only [Res.bind_ok]
+    rw [cBin_add_unsigned h]; simp only [Res.bind_ok]
+    rw [fin]
+
+/-- Horner over the chunk list, unsigned built-in result: any number of chunks, modulo `2^bits` -/
+theorem parseChunks_unsigned {base stride : Nat} (hs : StrideOK base stride) {t : IntTy} (ht : UnsignedWide t) (neg : Bool) :
+    ∀ (k : Nat) (cs : List Char) (A : Nat) (ds : List Nat) (rest : List Char),
+      readDigits base cs (k * stride) = .ok (ds, rest) → (∀ d ∈ ds, d < base) →
+      parseChunks (.builtin t) neg base stride k cs (t.wrap (sg neg A))
+        = .ok (t.wrap (sg neg (foldFrom base A ds))) := by
+  intro k
+  induction k with
+  | zero =>
+    intro cs A ds rest h _
+    rw [Nat.zero_mul, readDigits_zero] at h
+    injection h with h; injection h with h1 _
+    subst h1; rfl
+  | succ k ih =>
+    intro cs A ds rest h hd
+    have e : (k + 1) * stride = stride + k * stride := by rw [Nat.succ_mul, Nat.add_comm]
+    rw [e] at h
+    obtain ⟨ds1, ds2, mid, h1, h2, h3, h4⟩ := readDigits_split base cs stride (k * stride) ds rest h
+    subst h3
+    have hd1 : ∀ d ∈ ds1, d < base := fun d hx => hd d (List.mem_append_left _ hx)
+    have hd2 : ∀ d ∈ ds2, d < base := fun d hx => hd d (List.mem_append_right _ hx)
+    unfold parseChunks
+    rw [parseInt64_chunk hs neg cs stride ds1 mid h1 hd1 (by omega)]
+    simp only [Res.bind_ok]
+    rw [chunkStep_unsigned hs ht]
+    simp only [Res.bind_ok]
+    have hw : t.wrap (t.wrap (sg neg A) * ((base ^ stride : Nat) : Int) + sg neg (foldFrom base 0 ds1))
+        = t.wrap (sg neg (foldFrom base A ds1)) := by
+      rw [wrap_mul_left, sg_mul, sg_add, foldFrom_eq base ds1 A, h4]
+    rw [hw, foldFrom_append]
+    exact ih mid (foldFrom base A ds1) ds2 rest h2 hd2
+
+/-- `parse_string` into an unsigned built-in result (`uint64`, `unsigned __int128`) returns the
+token's value modulo `2^bits`, for a token of any length; no step is undefined -/
+theorem parseString_unsigned {base stride : Nat} (hs : StrideOK base stride) {t : IntTy} (ht : UnsignedWide t) (neg : Bool)
+    (cs : List Char) (n : Nat) (ds : List Nat) (rest : List Char)
+    (h : readDigits base cs n = .ok (ds, rest)) (hd : ∀ d ∈ ds, d < base) :
+    parseString (.builtin t) cs n neg base stride = .ok (t.wrap (sg neg (positional base ds))) := by
+  have hpos := strideOK_pos hs
+  have e : n = n % stride + (n / stride) * stride := by
+    have := Nat.mod_add_div n stride; rw [Nat.mul_comm] at this; omega
+  rw [e] at h
+  obtain ⟨ds1, ds2, mid, h1, h2, h3, h4⟩ := readDigits_split base cs _ _ ds rest h
+  subst h3
+  have hd1 : ∀ d ∈ ds1, d < base := fun d hx => hd d (List.mem_append_left _ hx)
+  have hd2 : ∀ d ∈ ds2, d < base := fun d hx => hd d (List.mem_append_right _ hx)
+  have hlt : n % stride < stride := Nat.mod_lt _ hpos
+  unfold parseString
+  rw [Nat.add_mod_right, parseInt64_chunk hs neg cs _ ds1 mid h1 hd1 (by omega)]
+  simp only [Res.bind_ok, Storage.ofInt64]
+  rw [parseChunks_unsigned hs ht neg (n / stride) mid (foldFrom base 0 ds1) ds2 rest h2 hd2, positional_eq, foldFrom_append]
+
+theorem unsignedWide_wrap_id {t : IntTy} (ht : UnsignedWide t) {v : Nat} (h : v < 2 ^ t.bits) : t.wrap (v : Int) = v := by
+  apply IntTy.wrap_id (by have := ht.2; omega)
+  unfold IntTy.InRange IntTy.max IntTy.lowest
+  simp only [ht.1, Bool.false_eq_true, ite_false]
+  have : ((v : Int)) < ((2 ^ t.bits : Nat) : Int) := Int.ofNat_lt.mpr h
+  rw [Int.natCast_pow] at this
+  have e2 : ((2 : Nat) : Int) = 2 := rfl
+  rw [e2] at this
+  constructor <;> omega
+
+/-! ## the width estimate covers every scanned token -/
+
+theorem shape_digits {r : List Char} {b : Body} (hs : Shape r b) : ∃ d0 ds', b.digits = d0 :: ds' := by
+  cases hs with
+  | point hn ha hb hne =>
+    rcases ha with ⟨rfl, rfl⟩ | ha
+    · rcases hb with ⟨rfl, rfl⟩ | hb
+      · simp at hne
+      · obtain ⟨_, _, d0, ds', _, e, _⟩ := DS_head hb; exact ⟨d0, ds', by simp [e]⟩
+    · obtain ⟨_, _, d0, ds', _, e, _⟩ := DS_head ha; exact ⟨d0, ds' ++ _, by rw [e]; rfl⟩
+  | hex _ hds => obtain ⟨_, _, d0, ds', _, e, _⟩ := DS_head hds; exact ⟨d0, ds', e⟩
+  | bin _ hds => obtain ⟨_, _, d0, ds', _, e, _⟩ := DS_head hds; exact ⟨d0, ds', e⟩
+  | zero => exact ⟨0, [], rfl⟩
+  | octSep hds => obtain ⟨_, _, d0, ds', _, e, _⟩ := DS_head hds; exact ⟨d0, ds', e⟩
+  | oct hds => obtain ⟨_, _, d0, ds', _, e, _⟩ := DS_head hds; exact ⟨d0, ds', e⟩
+  | dec _ hds => obtain ⟨_, _, d0, ds', _, e, _⟩ := DS_head hds; exact ⟨d0, ds', e⟩
+
+/-- the `num_bits` reported for a token bounds its magnitude: `|significand| < 2^num_bits` -/
+theorem token_numBits (cs : List Char) (t : Token) (h : token cs = some t) :
+    positional t.body.base t.body.digits < 2 ^ (expectedParams t).numBits := by
+  obtain ⟨hst, hlt⟩ := token_stride cs t h
+  have hsh : ∃ d0 ds', t.body.digits = d0 :: ds' := by
+    rcases token_cases cs t h with ⟨r, b, rfl, hb, rfl⟩ | ⟨r, b, rfl, hb, rfl⟩ | ⟨hp, hm, b, hb, rfl⟩
+    · exact shape_digits (body_shape r b hb)
+    · exact shape_digits (body_shape r b hb)
+    · exact shape_digits (body_shape cs b hb)
+  obtain ⟨d0, ds', e⟩ := hsh
+  have hb := strideOK_base hst
+  have hnb : (expectedParams t).numBits = estimate t.body.base (ds'.length + 1) d0 := by
+    simp [expectedParams, expected, e]
+  rw [hnb, e]
+  rw [e] at hlt
+  exact estimate_sufficient t.body.base hb d0 ds' (hlt d0 (List.mem_cons_self ..)) (fun d hd => hlt d (List.mem_cons_of_mem _ hd))
+
+/-! ## a signed one-digit octal token is read as a two-digit decimal one: same value -/
+
+theorem DS_single {base : Nat} {r : List Char} {d : Nat} (h : DS base r [d]) : ∃ c, r = [c] ∧ digitValue base c = some d := by
+  cases h with
+  | one hc => exact ⟨_, rfl, hc⟩
+  | sep hc hr => have := DS_pos hr; simp at this
+  | cons hc hr => have := DS_pos hr; simp at this
+
+theorem digitValue_oct_dec {c : Char} {d : Nat} (h : digitValue 8 c = some d) : digitValue 10 c = some d := by
+  obtain ⟨hlt, hr⟩ := digitValue_range h
+  rcases hr with ⟨a, b, e⟩ | ⟨a, b, e⟩ | ⟨a, b, e⟩
+  · unfold digitValue
+    simp only [a, b, and_self, ite_true]
+    rw [if_pos (by omega), e]
+  · omega
+  · omega
+
+theorem signed_octal_digit_scanned (s c : Char) (d : Nat) (neg : Bool)
+    (hs : (s = '+' ∧ neg = false) ∨ (s = '-' ∧ neg = true)) (hc : digitValue 8 c = some d) :
+    scanString [s, '0', c] = .ok ⟨neg, 10, 18, 1, 6, 2, 0⟩ ∧ readDigits 10 ['0', c] 2 = .ok ([0, d], []) := by
+  have h10 := digitValue_oct_dec hc
+  have hds : DS 10 ['0', c] [0, d] := DS.cons (by decide) (DS.one h10)
+  have hp := DS_plain hds
+  have hsc : ∀ s : Char, s ≠ radixChar → s ≠ separator → ∀ neg, scanBase [s, '0', c] neg 1 2 = .ok ⟨neg, 10, 18, 1, 6, 2, 0⟩ := by
+    intro s h1 h2 neg
+    show scanBase (s :: ['0', c]) neg 1 ['0', c].length = _
+    rw [scanBase_of_body _ _ _ _ _ _ _ (hp.signed s h1 h2)]
+    exact scanCore_decimal _ neg 1 false 2 0 0 (by simp) (by show digitPos 10 '0' = some 0; decide)
+  refine ⟨?_, DS_read_self (Or.inr (Or.inr (Or.inl rfl))) hds⟩
+  rcases hs with ⟨rfl, rfl⟩ | ⟨rfl, rfl⟩
+  · exact hsc '+' (by decide) (by decide) false
+  · exact hsc '-' (by decide) (by decide) true
+
+theorem shape_octal_digit {r : List Char} {b : Body} (hs : Shape r b) (hno : ∀ rest, r ≠ '0' :: '\'' :: rest)
+    (h8 : b.base = 8) (h1 : b.digits.length = 1) :
+    ∃ c d, r = ['0', c] ∧ digitValue 8 c = some d ∧ b.digits = [d] := by
+  cases hs with
+  | point => simp at h8
+  | hex => simp at h8
+  | bin => simp at h8
+  | zero => simp at h8
+  | octSep _ => exact absurd rfl (hno _)
+  | dec => simp at h8
+  | @oct rest ds hds =>
+    obtain ⟨d, rfl⟩ : ∃ d, ds = [d] := by
+      match ds, h1 with
+      | [d], _ => exact ⟨d, rfl⟩
+    obtain ⟨c, rfl, hc⟩ := DS_single hds
+    exact ⟨c, d, rfl, hc, rfl⟩
+
+/-- the signed one-digit octal tokens are `+0c` and `-0c` with `c` an octal digit -/
+theorem signed_octal_digit_cases (cs : List Char) (t : Token) (h : token cs = some t)
+    (h1 : ¬ OctSep cs t) (h2 : SignedOctalDigit t) :
+    ∃ s c d, cs = [s, '0', c] ∧ ((s = '+' ∧ t.negative = false) ∨ (s = '-' ∧ t.negative = true)) ∧
+      digitValue 8 c = some d ∧ t.body.base = 8 ∧ t.body.digits = [d] := by
+  obtain ⟨hsg, h8, hl⟩ := h2
+  rcases token_cases cs t h with ⟨r, b, rfl, hb, rfl⟩ | ⟨r, b, rfl, hb, rfl⟩ | ⟨hp, hm, b, hb, rfl⟩
+  · have hno : ∀ rest, r ≠ '0' :: '\'' :: rest := by
+      intro rest e; subst e; exact h1 (Or.inr ⟨rfl, rfl⟩)
+    obtain ⟨c, d, rfl, hc, hd⟩ := shape_octal_digit (body_shape r b hb) hno h8 hl
+    exact ⟨'+', c, d, rfl, Or.inl ⟨rfl, rfl⟩, hc, h8, hd⟩
+  · have hno : ∀ rest, r ≠ '0' :: '\'' :: rest := by
+      intro rest e; subst e; exact h1 (Or.inr ⟨rfl, rfl⟩)
+    obtain ⟨c, d, rfl, hc, hd⟩ := shape_octal_digit (body_shape r b hb) hno h8 hl
+    exact ⟨'-', c, d, rfl, Or.inr ⟨rfl, rfl⟩, hc, h8, hd⟩
+  · cases hsg
+
 
 end Cnl.ParseProofs
